@@ -27,7 +27,7 @@ UVL_KEYWORDS = ["features", "constraints", "mandatory", "optional", "or", "alter
 OPERATOR_WORDS = ["AND", "OR", "NOT", "XOR", "IMPLIES", "REQUIRES", "EXCLUDES", "EQUIVALENCE",
                   "EQUALS", "LOWER", "GREATER", "ADD", "SUB", "MUL", "DIV", "SUM", "AVG", "LEN",
                   "x AND y", "a OR b", "NOT z", "p XOR q", "n IMPLIES m"]
-ODD_UVL = ["1a", "42", "_x", "_", "a#b", "a§b", "a'b", "a;b", "a b", "  ", "a-b", "a+b",
+ODD_UVL = ["a // b", "see // the manual", "/* x */", "x /* y", "*/", "http://h/a//b", "1a", "42", "_x", "_", "a#b", "a§b", "a'b", "a;b", "a b", "  ", "a-b", "a+b",
            "a&b", "a|b", "(x)", "[y]", "{z}", "a,b", "a:b", "a=b", "<a>", "a/b", "a\\b", "a*b",
            "äöü", "ñandú", "日本語", "Δx", "\U0001f600", "xé",
            "!a", "a!", "a?", "100%", "a$", "a@b", "~t", "^u", "`v`"]
@@ -522,7 +522,9 @@ def uvl_strings():
     alphabet = st.one_of(st.sampled_from(string.ascii_letters + string.digits + " _-+*/,:;()[]{}<>=!?#%&|@^~\"\\"),
                          st.characters(min_codepoint=0xA1, max_codepoint=0x2FFF,
                                        blacklist_categories=("Cc", "Cs", "Cn", "Zl", "Zp", "Cf", "Co")))
-    return st.text(alphabet=alphabet, min_size=1, max_size=8)
+    return st.one_of(st.text(alphabet=alphabet, min_size=1, max_size=8),
+                     st.sampled_from(["see // the manual", "a // b", "/* c */", "x /* y", "http://h/a//b", "{k 1}", "[1,2]",
+                                      "features", "\\", "a\tb"]))
 
 
 def uvl_values():
